@@ -1,5 +1,6 @@
 """C03 - bounded stand-in on the real execer (never counted as proved): command lines x statement positions x backslash
 continuations, the bare form parsed by the real Execer against the same source with every segment wrapped in ![...] by hand."""
+import ast
 from pyvc.contract import *
 
 SEGMENTS = [
@@ -124,6 +125,33 @@ native_check("C03", "names-bound-only-in-inner-scopes-do-not-stop-the-wrap", "bo
              doc="C02's probe programs: a name bound only in a function / class / as a parameter leaves a later module-level line a command")
 
 
+def _commands(tree):
+    """the argument lists of the subprocess calls of a program, in source order of evaluation (depth first, left to right)"""
+    out = []
+
+    def words(call):
+        ws = []
+        for a in call.args[:1]:
+            for e in getattr(a, "elts", []):
+                if isinstance(e, ast.Call) and e.args and isinstance(e.args[0], ast.Constant):
+                    ws.append(e.args[0].value)
+                elif isinstance(e, ast.Constant):
+                    ws.append(e.value)
+                else:
+                    ws.append("?")
+        return ws
+
+    def visit(n):
+        if isinstance(n, ast.Call) and isinstance(n.func, ast.Attribute) and n.func.attr.startswith("subproc_") and n.func.attr != "subproc_check_boolop":
+            out.append(words(n))
+            return
+        for c in ast.iter_child_nodes(n):
+            visit(c)
+
+    visit(tree)
+    return out
+
+
 def long_chains(tier, seed):
     """many command segments in one input: one-line chains of k commands and scripts of n two-command chain lines - the bare form compiles to the
     same program as the hand-wrapped form (the wrap-and-reparse budget must grow with the number of segments)"""
@@ -148,6 +176,14 @@ def long_chains(tier, seed):
             pre = ["if True:"] if pad else []
             cases.append(("%d lines of `cmd && cmd`%s" % (nl, " inside if" if pad else ""), "\n".join(pre + [pad + "echo a%d b && echo c d" % i for i in range(nl)]),
                           "\n".join(pre + [pad + "![echo a%d b] && ![echo c d]" % i for i in range(nl)])))
+    # a chain continued over a backslash, the operator before or after the line break, segments that also parse as Python (`ls -l`): compared by the
+    # COMMANDS the program runs, in order (the recorded known finding - a missing in_boolop flag on such segments - does not change them)
+    for op in ("and", "or", "&&", "||"):
+        for first in ("ls -l", "id -u", "echo a b"):
+            for second in ("pwd -P", "echo c d"):
+                cases.append(("`%s %s \\<nl> %s`" % (first, op, second), "%s %s \\\n  %s" % (first, op, second), "![%s] %s ![%s]" % (first, op, second)))
+                cases.append(("`%s \\<nl> %s %s`" % (first, op, second), "%s \\\n  %s %s" % (first, op, second), "![%s] %s ![%s]" % (first, op, second)))
+                cases.append(("`%s \\<nl> %s %s \\<nl> %s ls -a`" % (first, op, second, op), "%s \\\n  %s %s \\\n  %s ls -a" % (first, op, second, op), "![%s] %s ![%s] %s ![ls -a]" % (first, op, second, op)))
     cases.append(("12 commands separated by ;", "; ".join("echo a%d b" % i for i in range(12)), "; ".join("![echo a%d b]" % i for i in range(12))))
     for name, bare, expl in cases:
         n += 1
@@ -155,7 +191,11 @@ def long_chains(tier, seed):
         try:
             tb = ex.parse(bare + "\n", ctx=set(ctx), mode="exec", filename="<bare>")
             te = ex.parse(expl + "\n", ctx=set(ctx), mode="exec", filename="<explicit>")
-            if _strip(tb) != _strip(te):
+            if "<nl>" in name:
+                cb, ce = _commands(tb), _commands(te)
+                if cb != ce:
+                    obs = "the bare form runs the commands %r, the hand-wrapped form %r" % (cb, ce)
+            elif _strip(tb) != _strip(te):
                 obs = "the bare form compiles to a different program than the hand-wrapped form"
         except SyntaxError as e:
             obs = "SyntaxError for the bare form: %s" % str(e).split("\n")[0]
